@@ -27,7 +27,12 @@ var (
 	}
 )
 
+// (sync.Map operations are atomic and synchronise: the model takes a lock around each)
+var vfMgrMu sync.Mutex
+
 func vfMgrLoadOrStore(m *sync.Map, key, value any) (any, bool) {
+	vfMgrMu.Lock()
+	defer vfMgrMu.Unlock()
 	k := key.(string)
 	if v, ok := vfMgr[k]; ok {
 		return v, true
@@ -37,6 +42,8 @@ func vfMgrLoadOrStore(m *sync.Map, key, value any) (any, bool) {
 }
 
 func vfMgrDelete(m *sync.Map, key any) {
+	vfMgrMu.Lock()
+	defer vfMgrMu.Unlock()
 	if k, ok := key.(string); ok {
 		delete(vfMgr, k)
 	}
@@ -62,7 +69,6 @@ func vfStat(name string) (os.FileInfo, error) {
 
 func vfPrepare(b *blobDownload, ctx context.Context, requestURL *url.URL, opts *registryOptions) error {
 	vfPrepares++
-	b.done = make(chan struct{})
 	if verifChoice(2) == 1 {
 		return errors.New("HEAD request failed")
 	}
@@ -105,4 +111,61 @@ func VerifC03DownloadRetry(attempts int) {
 		}
 		verifAssert(len(vfMgr) == 0, "no-stale-download-registration-between-attempts")
 	}
+}
+
+// ---- C15: the transfer manager is single-flight under concurrency ----
+
+var (
+	vfRunning   map[string]int
+	vfPreparing map[string]int
+	vfSlowIO    bool
+)
+
+func vfMgrLoad(m *sync.Map, key any) (any, bool) {
+	vfMgrMu.Lock()
+	defer vfMgrMu.Unlock()
+	v, ok := vfMgr[key.(string)]
+	return v, ok
+}
+
+func vfMgrStore(m *sync.Map, key, value any) {
+	vfMgrMu.Lock()
+	defer vfMgrMu.Unlock()
+	vfMgr[key.(string)] = value
+}
+
+func vfPrepareC(b *blobDownload, ctx context.Context, requestURL *url.URL, opts *registryOptions) error {
+	verifAssert(vfPreparing[b.Digest] == 0 && vfRunning[b.Digest] == 0, "two-transfers-of-one-digest-in-flight")
+	vfPreparing[b.Digest]++
+	verifYield() // the HEAD request is a network round trip
+	vfPreparing[b.Digest]--
+	return vfPrepare(b, ctx, requestURL, opts)
+}
+
+func vfRunC(b *blobDownload, ctx context.Context, requestURL *url.URL, opts *registryOptions) {
+	verifAssert(vfRunning[b.Digest] == 0, "two-transfers-of-one-digest-in-flight")
+	vfRunning[b.Digest]++
+	verifYield() // the transfer takes time
+	vfRunning[b.Digest]--
+	vfRun(b, ctx, requestURL, opts)
+}
+
+// VerifC15DownloadConcurrent: n concurrent downloadBlob calls for one digest: at any moment at most one
+// transfer (Prepare or Run) of that digest is in flight, and every caller gets an answer.
+func VerifC15DownloadConcurrent(n int) {
+	vfMgr, vfPrepares = map[string]any{}, 0
+	vfPresent, vfGood = map[string]bool{}, map[string]bool{}
+	vfRunning, vfPreparing = map[string]int{}, map[string]int{}
+	done := make(chan bool, n)
+	for i := 0; i < n; i++ {
+		go func() {
+			_, err := downloadBlob(context.Background(), downloadOpts{mp: ModelPath{Namespace: "library", Repository: "m"}, digest: vfDL[0], regOpts: &registryOptions{}, fn: func(api.ProgressResponse) {}})
+			done <- err == nil
+		}()
+	}
+	for i := 0; i < n; i++ {
+		<-done
+	}
+	verifReach("all-downloads-returned")
+	verifAssert(len(vfMgr) == 0, "no-stale-download-registration-between-attempts")
 }
